@@ -95,10 +95,42 @@ def _enum(full):
     return gen
 
 
+def _enum_pairs():
+    """Two raising stages (first, later) x every pair of behaviours x user handlers for the skip class."""
+    kinds = ["fail", "error", "skip", "skip_sub", "xfail", "uxsuccess", "assertion_sub", "error_falsy"]
+    sites = [("setUp_post", "cleanup"), ("body", "tearDown_post"), ("body", "cleanup"), ("tearDown_post", "cleanup"), ("cleanup", "cleanup2")]
+    handler_sets = [[], [{"cls": "SkipTest", "to": "addSkip", "pos": 0}], [{"cls": "SkipTest", "to": "addSuccess", "pos": 0}],
+                    [{"cls": "SkipTest", "to": "addExpectedFailure", "pos": 5}]]
+    ids = itertools.count(1)
+    for k1 in kinds:
+        for k2 in kinds:
+            for a, b in sites:
+                for hs in handler_sets:
+                    prog = {"decor": "none", "setUp_pre": [], "setUp_post": [], "body": [], "tearDown_pre": [], "tearDown_post": [],
+                            "handlers": hs, "handlers_when": "init", "cells": 0}
+                    r1 = {"a": "raise", "i": next(ids), "kind": k1}
+                    r2 = {"a": "raise", "i": next(ids), "kind": k2}
+                    # cleanups run last-registered first: "cleanup2" is registered before "cleanup" so that it runs after it
+                    if b == "cleanup2":
+                        prog["setUp_pre"].append({"a": "cleanup", "i": next(ids), "args": False, "body": [r2]})
+                    if a == "cleanup":
+                        prog["setUp_pre"].append({"a": "cleanup", "i": next(ids), "args": False, "body": [r1]})
+                    else:
+                        prog[a].append(r1)
+                    if b == "cleanup":
+                        prog["setUp_pre"].insert(0, {"a": "cleanup", "i": next(ids), "args": False, "body": [r2]})
+                    elif b != "cleanup2":
+                        prog[b].append(r2)
+                    yield {"prog": prog, "flavour": "ext"}
+
+
 def subchecks(tier):
     q = tier == "quick"
     return [
-        Sub("random_programs", run_case, CASE, 3000 if q else 80000),
+        Sub("random_programs", run_case, CASE, 4500 if q else 80000),
+        Sub("pairs_with_skip_handlers", run_case, enum=_enum_pairs, enum_complete=True,
+            note="8 x 8 behaviours in (earlier stage, later stage) for 5 stage pairs x {no user handler, SkipTest->addSkip, "
+                 "SkipTest->addSuccess, SkipTest->addExpectedFailure}"),
         Sub("kind_x_stage_grid", run_case, enum=_enum(not q), enum_complete=True,
             note=("9 behaviours ^ 5 stages, extended recorder + (with expectThat) real TestResult" if not q
                   else "6 behaviours ^ 5 stages with <= 3 faulty stages")),
